@@ -1007,6 +1007,26 @@ func BackpropAcrossFunc(
 	currAssertions[retBlock] = newRootAssertionNode(exprNonceMap, functionContext)
 	updatedLastRound[retBlock] = true
 
+	// A block that ends the execution (e.g., with a call to `panic`, `os.Exit`, or a user function
+	// that never returns) has no successors, so the "return" block is not reachable from it.
+	// Nothing is required after such a block, but its own nodes, and the blocks that lead only to
+	// it, still run. Hence, it is a starting point of the backpropagation, too.
+	for i, block := range blocks[:retBlock] {
+		if !block.Live || len(block.Succs) != 0 {
+			continue
+		}
+		currAssertions[i] = newRootAssertionNode(exprNonceMap, functionContext)
+		if err := backpropAcrossBlock(currAssertions[i], block); err != nil {
+			return nil, roundCount, stableRoundCount, err
+		}
+		updatedLastRound[i] = true
+	}
+	if currAssertions[0] != nil {
+		// The entry block itself ends the execution.
+		currRootAssertionNode = CopyNode(currAssertions[0]).(*RootAssertionNode)
+		currRootAssertionNode.ProcessEntry()
+	}
+
 	for slices.Contains(updatedLastRound, true) {
 		roundCount++
 
